@@ -1,5 +1,6 @@
 import Fabio.Driver.Proto
 import Fabio.Model.C10
+import Fabio.Model.C10Std
 import Fabio.Generated.C10
 namespace Fabio.Driver.C10
 open Lean Fabio.Driver Fabio.Model.C10
@@ -86,13 +87,15 @@ def modelObs (b : Bytes) : Option Obs × String :=
            | .panic _ => "short:panic")
         else "parse:" ++ s
       | .panic _ => "parse:panic"
-  match sz, rs, rt with
-  | .panic _, _, _ | _, .panic _, _ | _, _, .panic _ => (none, tag)
-  | sz, .ok (nm, ok), rt =>
+  -- `ServeTCP` up to the dial (Model/C10Std.lean): the argument of `Lookup`, if it gets that far
+  let sv := serveTCP b
+  match sz, rs, rt, sv with
+  | .panic _, _, _, _ | _, .panic _, _, _ | _, _, .panic _, _ | _, _, _, .panic _ => (none, tag)
+  | sz, .ok (nm, ok), _, sv =>
     (some { size := match sz with | .ok n => some n | _ => none
             sizeErr := match sz with | .reject s => some s | _ => none
             ok := ok, name := hexEncode nm
-            route := match rt with | .ok [] => none | .ok nm => some (hexEncode nm) | _ => none }, tag)
+            route := match sv with | .lookup host _ _ => some (hexEncode host) | _ => none }, tag)
 
 def obsJson (o : Option Obs) : Json :=
   match o with
@@ -120,7 +123,35 @@ def specBytes (b : Bytes) (o : Obs) (orc : Oracles) : Bool :=
       (o.size != some b.length || (o.ok && o.name == orc.strictName)))
   let oraclesOk := !(orc.strictOk && orc.tlsOk) || orc.strictName == orc.tlsName
   let bothOk := !(orc.tlsOk && o.route.isSome) || o.route == some orc.tlsName
-  sizeOk && routeOk && strictOk && oraclesOk && bothOk
+  -- the Lean reading of "a standard TLS server" (Model/C10Std.lean, `Props.C10Std.std_route_agree`): whatever it
+  -- accepts is routed by its name (not routed when the name is empty)
+  let stdOk := match stdRoute b with
+    | some n => o.size.isSome && o.route == nonEmpty (hexEncode n)
+    | none => true
+  -- "it is rejected instead" (`Props.C10Std.malformed_rejected_partial` / `accepted_is_framed`): whatever
+  -- `readServerName` accepts is an exactly framed ClientHello (every vector nests, nothing dangling behind the last
+  -- extension) with a session id of at most 32 bytes; a routed connection carried such a message in its first record
+  let framed (msg : Bytes) : Bool := match frame msg with
+    | some rh => rh.sessionId.length ≤ 32
+    | none => false
+  -- (the message of a routed connection: the 4-byte handshake header and as many bytes as it announces; the
+  -- record around it need not be complete — fabio reads the message, not the record)
+  let hsLen := (b.getD 6 0).toNat * 65536 + (b.getD 7 0).toNat * 256 + (b.getD 8 0).toNat
+  let framedOk := (!o.ok || framed (b.drop 5)) && (o.route.isNone || framed ((b.drop 5).take (4 + hsLen)))
+  sizeOk && routeOk && strictOk && oraclesOk && bothOk && stdOk && framedOk
+
+/-- The tie of the Lean model of the oracles to the oracles themselves: `stdRoute` (Lean) and the strict reader
+of the harness (`wire.go`, Go) must agree exactly, and whenever crypto/tls accepts a hello that is complete within
+the first record, `stdServerName 255` (crypto/tls's reading with opaque bodies for the other extensions) accepts it
+with the same name. -/
+def oracleModelAgrees (b : Bytes) (orc : Oracles) : Bool :=
+  let strictSame := match stdRoute b with
+    | some n => orc.strictOk && orc.strictName == hexEncode n
+    | none => !orc.strictOk
+  let tlsSame := !orc.tlsOk || match firstMessage maxRecordLen b with
+    | some msg => stdServerName 255 msg == some ((hexDecode orc.tlsName).toOption.getD [])
+    | none => true
+  strictSame && tlsSame
 
 /-- The functions **translated from the current Go source** (`Generated.C10.XBufSize`, `XUnmarshal`, written by
 `tools/factgen/xlate.go` on every run) evaluated on the same bytes as the implementation: the buffer size of the
@@ -147,7 +178,7 @@ def bytesH (real : Bool) : Handler := fun inp impl => do
   let orc ← readOracles impl
   let spec := specBytes b o orc && (!real || (orc.tlsOk && orc.strictOk))
   let nontrivial := if real then orc.tlsOk && orc.strictOk && o.route.isSome else o.size.isSome
-  return ({ model := obsJson m, agree := m == some o && xlateAgrees b o, spec := spec, nontrivial := nontrivial, tag := tag } : Verdict).toJson
+  return ({ model := obsJson m, agree := m == some o && xlateAgrees b o && oracleModelAgrees b orc, spec := spec, nontrivial := nontrivial, tag := tag } : Verdict).toJson
 
 /-! Abstract hellos (stream `c10.model`). -/
 
@@ -218,7 +249,7 @@ def modelH : Handler := fun inp impl => do
     (o.ok && o.name == want && o.size == some b.length && o.route == nonEmpty want &&
      orc.strictOk && orc.strictName == want && (!orc.tlsOk || orc.tlsName == want))
   let nontrivial := wf && (match h.extensions with | some es => es.length ≥ 2 && es.any (fun e => e.typ == 0) | none => false)
-  return ({ model := mj, agree := m == some o && encOk && xlateAgrees b o, spec := encOk && specBytes b o orc && wfSpec,
+  return ({ model := mj, agree := m == some o && encOk && xlateAgrees b o && oracleModelAgrees b orc, spec := encOk && specBytes b o orc && wfSpec,
             nontrivial := nontrivial, tag := tag } : Verdict).toJson
 
 def streams : List (String × Handler) :=
